@@ -4,11 +4,25 @@ import SurfModel.Payload
 import SurfModel.Protocol
 import SurfModel.Stream
 /-! Driver for C04 (also usable by C02): `gram …` → grammar dumps and bisimulation of the production
-automata, `pay …` → models of the payload decoders, `proto …` → the protocol printer and the meaning of
-messages, `sd …` → the self-delimiting condition evaluated on a dumped table. -/
-def main : IO Unit := SurfModel.Proto.serve fun
-  | "gram" :: rest => SurfModel.Grammar.handle rest
-  | "pay" :: rest => SurfModel.Payload.handle rest
-  | "proto" :: rest => SurfModel.Protocol.handle rest
-  | "sd" :: rest => SurfModel.Stream.handle rest
-  | _ => "bad-op"
+automata, `pay …` → models of the payload decoders, `proto …` → the protocol printer and the denotation of
+messages, `sd … | <table>` → the self-delimiting condition evaluated on a dumped table (which is also
+installed), `sd stream <hex>` → the composed model of `TTYEventDecoder` over the installed table. -/
+open SurfModel
+
+partial def loopC04 (rows : Array Automata.Wire.Row) (h out : IO.FS.Stream) : IO Unit := do
+  let line ← h.getLine
+  if line.isEmpty then return ()
+  match Proto.tokens line with
+  | "gram" :: rest => out.putStrLn (Grammar.handle rest); loopC04 rows h out
+  | "pay" :: rest => out.putStrLn (Payload.handle rest); loopC04 rows h out
+  | "proto" :: rest => out.putStrLn (Protocol.handle rest); loopC04 rows h out
+  | "sd" :: rest =>
+    let (rows', answer) := Stream.handleWith rows rest
+    out.putStrLn answer
+    loopC04 rows' h out
+  | _ => out.putStrLn "bad-op"; loopC04 rows h out
+
+def main : IO Unit := do
+  let out ← IO.getStdout
+  loopC04 #[] (← IO.getStdin) out
+  out.flush
